@@ -276,10 +276,42 @@ func TestPropConverge(t *testing.T) {
 				}
 			}
 			op := rapid.SampledFrom(ops).Draw(t, "op")
+			// known finding C02-F1: nothing is written to a node that has two
+			// placements, or below such a node, once the second placement exists
+			underDiamond := func(id string) bool {
+				seen := map[string]bool{}
+				var up func(x string) bool
+				up = func(x string) bool {
+					if seen[x] {
+						return false
+					}
+					seen[x] = true
+					n := 0
+					for _, e := range nodes {
+						if e.id == x {
+							n++
+						}
+					}
+					if n >= 2 {
+						return true
+					}
+					for _, e := range nodes {
+						if e.id == x && e.parent != "TOP" && up(e.parent) {
+							return true
+						}
+					}
+					return false
+				}
+				return up(id)
+			}
 			switch op {
 			case "nodePoint":
 				n := nodes[rapid.IntRange(0, len(nodes)-1).Draw(t, "node")]
 				if !visible(s, n.parent, n.id) {
+					break
+				}
+				if underDiamond(n.id) {
+					stats.Excluded("C02-F1 write to or below a node with two placements")
 					break
 				}
 				p := data.Point{Type: rapid.SampledFrom([]string{"value", "description", "units"}).Draw(t, "ptype"), Key: rapid.SampledFrom([]string{"", "1"}).Draw(t, "pkey"),
@@ -297,6 +329,10 @@ func TestPropConverge(t *testing.T) {
 				if !visible(s, n.parent, n.id) {
 					break
 				}
+				if underDiamond(n.parent) {
+					stats.Excluded("C02-F1 write to or below a node with two placements")
+					break
+				}
 				p := data.Point{Type: "role", Text: rapid.SampledFrom([]string{"admin", "user"}).Draw(t, "role"), Time: ts(), Origin: "h-" + s.name}
 				ack(s, n.id, n.parent, data.Points{p})
 				hist = append(hist, fmt.Sprintf("%s: edge point %s>%s role=%s", s.name, n.parent, n.id, p.Text))
@@ -309,6 +345,10 @@ func TestPropConverge(t *testing.T) {
 				}
 				par := nodes[rapid.IntRange(0, len(nodes)-1).Draw(t, "parent")]
 				if !visible(s, par.parent, par.id) {
+					break
+				}
+				if underDiamond(par.id) {
+					stats.Excluded("C02-F1 write to or below a node with two placements")
 					break
 				}
 				nNew++
@@ -338,6 +378,11 @@ func TestPropConverge(t *testing.T) {
 				if !ok || !visible(s, n.parent, n.id) || !visible(s, par.parent, par.id) {
 					break
 				}
+				if underDiamond(par.id) {
+					stats.Excluded("C02-F1 write to or below a node with two placements")
+					break
+				}
+
 				ack(s, n.id, par.id, data.Points{{Type: data.PointTypeTombstone, Value: 0, Time: ts(), Origin: "h-" + s.name}, {Type: data.PointTypeNodeType, Text: data.NodeTypeVariable, Origin: "h-" + s.name}})
 				nodes = append(nodes, edge{par.id, n.id})
 				hist = append(hist, fmt.Sprintf("%s: mirror %s under %s", s.name, n.id, par.id))
@@ -351,6 +396,10 @@ func TestPropConverge(t *testing.T) {
 				}
 				n := nodes[rapid.IntRange(1, len(nodes)-1).Draw(t, "node")]
 				if !visible(s, n.parent, n.id) {
+					break
+				}
+				if underDiamond(n.parent) {
+					stats.Excluded("C02-F1 write to or below a node with two placements")
 					break
 				}
 				v := 1.0
